@@ -38,7 +38,7 @@ class PathExplosion(Exception):
 
 
 class Event:
-    __slots__ = ("kind", "bb", "name", "fn", "args", "result", "place", "value", "extra", "fnpath", "term", "vers", "ncond")
+    __slots__ = ("kind", "bb", "name", "fn", "args", "result", "place", "value", "extra", "fnpath", "term", "vers", "ncond", "target")
 
     def __init__(self, kind, bb, fnpath, **kw):
         self.kind = kind
@@ -46,6 +46,7 @@ class Event:
         self.fnpath = fnpath
         self.name = kw.get("name")
         self.fn = kw.get("fn")
+        self.target = kw.get("target")
         self.args = kw.get("args")
         self.result = kw.get("result")
         self.place = kw.get("place")
@@ -142,6 +143,7 @@ class Sym:
         self.inline = inline or (lambda fn: False)
         self.inline_depth = inline_depth
         self.expand_combinators = True
+        self.inline_async = False
         self.uid = 0
         self.pure = pure or PURE_NAMES
 
@@ -167,6 +169,26 @@ class Sym:
                 return self.apply_proj(st, e, place["p"][k:])
         l = place["l"]
         return self.apply_proj(st, ("unk", "_%d" % l), place["p"])
+
+    def addr_of(self, st, place):
+        """Where a store through a pointer lands, as an expression over the *pointer's value*: `(*_1).0 = x` inside a helper that
+        was called with `&mut self.marker` is a store to `self.marker.0` whatever the helper calls its parameter. None for locals."""
+        di = next((i for i, el in enumerate(place["p"]) if el["k"] == "deref"), None)
+        if di is None:
+            return None
+        ptr = self.read_place(st, {"l": place["l"], "p": place["p"][:di]})
+        e = ptr[1] if ptr[0] == "ref" else ("deref", ptr)
+        for el in place["p"][di + 1:]:
+            k = el["k"]
+            if k == "field":
+                e = ("field", e, el.get("name") if el.get("name") is not None else el["i"], el["ty"])
+            elif k == "downcast":
+                e = ("downcast", e, el.get("name") if el.get("name") is not None else el["v"])
+            elif k == "deref":
+                e = ("deref", e)
+            else:
+                e = ("proj", e, k)
+        return e
 
     def apply_proj(self, st, e, proj):
         for el in proj:
@@ -368,7 +390,7 @@ class Sym:
                     e = self.rvalue(st, s["rv"])
                     if s["place"]["p"]:
                         idx = tuple(st.env.get("_%d" % el["l"], ("unk", "_%d" % el["l"])) for el in s["place"]["p"] if el["k"] == "index")
-                        st.events.append(Event("store", bb, fnpath, place=pkey(s["place"]), value=e, extra=s, args=idx))
+                        st.events.append(Event("store", bb, fnpath, place=pkey(s["place"]), value=e, extra=s, args=idx, target=self.addr_of(st, s["place"])))
                     self.assign(st, s["place"], e, s["rv"])
                 elif s["k"] == "set_discr":
                     st.events.append(Event("store", bb, fnpath, place=pkey(s["place"]) + "#discr", value=("int", s["v"]), extra=s))
@@ -461,10 +483,34 @@ class Sym:
                     st.events.append(Event("call", bb, fnpath, name=name, fn=fn, args=args, result=None, term=t, extra="stop"))
                     self._finish(st, "stop", None, out)
                     return
+                if fn and short in ("call_once", "call_mut", "call") and ("ops::FnOnce::" in name or "ops::FnMut::" in name or "ops::Fn::" in name or "ops::function::Fn" in name) and len(args) == 2 and depth < self.inline_depth + 1:
+                    # calling a closure value that is known on this path (a helper applying its `impl FnOnce` parameter)
+                    c0 = args[0]
+                    while c0[0] == "ref":
+                        c0 = c0[1]
+                    cal = self._callable(c0) if (c0[0] == "agg" and c0[1] == "closure") else None
+                    tup = args[1]
+                    if cal is not None and cal[0] == "closure" and tup[0] == "agg" and tup[1] == "tuple" and cal[1].path != fnpath:
+                        ev = Event("call", bb, fnpath, name=name, fn=fn, args=args, result=None, term=t, extra="inlined",
+                                   vers=tuple(st.ver.get(a, 0) for a in args), ncond=len(st.conds))
+                        self._inline_call(body, t, st, out, depth, cal[1], [cal[2]] + list(tup[4]), ev, uid)
+                        return
                 comb = self._combinator(name, short, args) if (fn and self.expand_combinators) else None
                 if comb is not None:
                     self._expand_combinator(body, bb, t, st, out, depth, comb, name, fn, args, uid)
                     return
+                if self.inline_async and fn and name.endswith("}") and len(args) == 2 and depth < self.inline_depth + 1:
+                    # poll of the future of a private async fn that was looked through: run its coroutine body in place
+                    cb = self.facts.body(name)
+                    fut = None
+                    if cb is not None and cb.j.get("coroutine_kind"):
+                        fut = next((x for x in walk_expr(args[0]) if isinstance(x, tuple) and x and x[0] == "agg" and x[1] == "coroutine" and x[2] == cb.path), None)
+                    if fut is not None and cb.path != fnpath:
+                        ev = Event("call", bb, fnpath, name=name, fn=fn, args=args, result=None, term=t, extra="inlined",
+                                   vers=tuple(st.ver.get(a, 0) for a in args), ncond=len(st.conds))
+                        self._inline_call(body, t, st, out, depth, cb, [fut, args[1]], ev, uid,
+                                          wrap=lambda r: ("agg", "adt", "std::task::Poll", "Ready", (r,)))
+                        return
                 callee_body = None
                 if fn and depth < self.inline_depth and self.inline(fn):
                     callee_body = self.facts.body(callee_name(fn)) or self.facts.body(fn["path"])
@@ -714,6 +760,12 @@ def fold_pure(short, args):
     a = args[0]
     while a[0] == "ref":
         a = a[1]
+    if a[0] in ("call", "pure") and a[1].split("::")[-1] == "from_residual" and "result::Result" in a[1]:
+        # `<Result<T, F> as FromResidual<Result<Infallible, E>>>::from_residual(r)` is Err(From::from(e)): the value an inner `?` returned
+        if short == "branch":
+            return ("agg", "adt", "core::ops::ControlFlow", "Break", (a,))
+        if short in ("is_ok", "is_err"):
+            return ("int", int(short == "is_err"))
     if a[0] != "agg" or a[1] != "adt":
         return None
     v = a[3]
